@@ -46,6 +46,9 @@ from vt import par, solve, symx
 from vt.report import ASSUMPTIONS, Report
 
 
+SYNTHETIC_TRIPLES = [(5, "nearest", 0), (0.25, "nearest", 0), (2, "up", 0), (25, "down", 0), (36, "nearest", 18), (0.05, "nearest", 0.01)]
+
+
 def yaml_rounding_specs():
     """{(group, func, date): spec dict} from every parameter file"""
     out = {}
@@ -83,6 +86,9 @@ def wrapper_obligations(rep):
     for (g, fn, d), v in specs.items():
         t = (v.get("base"), v.get("direction"), v.get("to_add_after_rounding", 0))
         triples.setdefault(t, []).append(f"{g}.{fn}@{d}")
+    # specifications a reform may put in force (GEP-5): bases that are not powers of ten, offsets with a base != 1
+    for t in SYNTHETIC_TRIPLES:
+        triples.setdefault(t, []).append("user specification (synthetic)")
     rep.extra["rounding_triples"] = [{"base": b, "direction": di, "offset": o, "n_uses": len(u), "e.g.": u[0]} for (b, di, o), u in triples.items()]
     where = "src/_gettsim/interface.py:660-717 (wrapper)"
     rep.functions.add("src/_gettsim/interface.py:686 _add_rounding_to_one_function.<locals>.inner.<locals>.wrapper")
@@ -607,7 +613,7 @@ def offset_reaches_environment(rep):
 def float_grid(rep, seed):
     """R6 bounded complement to A1."""
     specs = yaml_rounding_specs()
-    triples = {(v.get("base"), v.get("direction"), v.get("to_add_after_rounding", 0)) for v in specs.values()}
+    triples = {(v.get("base"), v.get("direction"), v.get("to_add_after_rounding", 0)) for v in specs.values()} | set(SYNTHETIC_TRIPLES)
     n = 0
     distinct = set()
     bad = []
